@@ -1173,8 +1173,12 @@ func joinVals(guard string, a []Val, b Val) Val {
 	for i := range a {
 		ai, aok := a[i].(IntV)
 		bi, bok := bs[i].(IntV)
+		_, aBool := a[i].(BoolV)
+		_, bBool := bs[i].(BoolV)
 		if aok && bok {
 			out[i] = IntV{Ite(guard, ai.T, bi.T)}
+		} else if aBool && bBool {
+			out[i] = joinVal(guard, a[i], bs[i])
 		} else if alt, ok := altOf(a[i], bs[i]); ok {
 			// one of several objects (a dispatcher written as a helper that returns from each case)
 			out[i] = alt
